@@ -157,6 +157,9 @@ def run(chk):
     for cname, sc in children():
         ins, outs = sorted(sc.inputs()), sorted(sc.outputs())
         conn_sets = [None, {ins[0]: "A"}, {ins[0]: "G", outs[0]: "T1"}, {**{i: n for i, n in zip(ins, ["A", "B"])}, outs[0]: ["T1", "T2"] if sc.type(outs[0]) != "input" else "T1"}]
+        if len(ins) >= 2:
+            conn_sets.append({i: "G" for i in ins})  # one parent net feeds every child input
+            conn_sets.append({ins[0]: "A", ins[1]: "A", outs[0]: "T2"} if sc.type(outs[0]) != "input" else {ins[0]: "A", ins[1]: "A"})
         for ci, conns in enumerate(conn_sets):
             for strip_io in (True, False):
                 if conns and not strip_io and any(k in ins for k in conns):
@@ -337,6 +340,22 @@ def run(chk):
         if prob is None and base._snapshot() != snap:
             prob = {"problem": "argument modified"}
         chk.ob("C06.B.strip_blackboxes", key, prob is None, file="tx.py", func="strip_blackboxes", line=fsb.node.lineno, fact=prob or {"pins": len(pins_in) + len(pins_out)}, expect="pins exposed as inst_pin io, ignored pins deleted, no registry, other functions unchanged")
+    ff3 = RefBlackBox("fd2", ["cp", "cd", "d"], ["q", "nq"])
+    base2 = build({"a": ("input", []), "r": ("input", []), "u.cp": ("bb_input", ["a"]), "u.cd": ("bb_input", ["r"]), "u.d": ("bb_input", ["g"]), "u.q": ("bb_output", []), "u.nq": ("bb_output", []),
+                   "w": ("buf", ["u.q"]), "v": ("buf", ["u.nq"]), "g": ("xor", ["a", "w"]), "o": ("and", ["w", "v"])}, outputs=["o"], blackboxes={"u": ff3})
+    for ign, gone, kept in (("d", ["u.d"], ["u_cd", "u_cp", "u_q", "u_nq"]), ("q", ["u.q"], ["u_nq", "u_d", "u_cd"]), (["cp", "q"], ["u.cp", "u.q"], ["u_cd", "u_d", "u_nq"])):
+        r = P.call("tx.py", "strip_blackboxes", base2, ign)
+        n_eval += 1
+        prob = None
+        if r[0] != "return":
+            prob = {"result": str(r)[:160]}
+        else:
+            s2 = r[1]
+            missing = [k for k in kept if k not in s2]
+            left = [g_ for g_ in gone if g_ in s2 or g_.replace(".", "_") in s2]
+            if missing or left:
+                prob = {"problem": "ignored-pin matching is not by exact pin name", "pins_wrongly_deleted": missing, "ignored_pins_left": left}
+        chk.ob("C06.B.strip_blackboxes", f"strip_blackboxes::pin names sharing a suffix::ignore={ign}", prob is None, file="tx.py", func="strip_blackboxes", line=fsb.node.lineno, fact=prob or {}, expect="exactly the named pins are deleted")
     clash = base.copy()
     clash.graph.add_node("u_q", type="buf", output=False)
     r = P.call("tx.py", "strip_blackboxes", clash)
